@@ -81,6 +81,17 @@ CHECKS['C13'] = ('crashsim', 'fault_enumeration', '4',
     'intercepted mutating fs/SQL call, incl. torn writes) over seeded scenarios, survivor checked by a fresh process '
     'against the old-or-new dict model')
 
+CHECKS['C14'] = ('racesim', 'exploration', '4',
+    'seeded schedules at file-system/SQL-call granularity over 2-3 real client processes (writer/writer on distinct keys, '
+    'writer/reader, overwriter/reader, deleter/reader, writer/opener) on dir (all encodings), sqlite-file and single-file '
+    'archives; the recorded invoke/return history is checked: nobody fails, every value read was stored for that key by an '
+    'overlapping or preceding write, no never-stored key appears, stable keys are not missed, a fresh handle sees every '
+    'acknowledged write; sqlite busy-waits run on virtual time',
+    'one sampled schedule per scenario (not all interleavings); interleaving granularity is the intercepted Python-level '
+    'call (C-level sequences inside sqlite / importlib are atomic); file archive limited to one writer plus readers/openers',
+    'deterministic simulation with fault injection: seeded scheduler over real client processes parked at every intercepted '
+    'fs/SQL call, history checked per key against register semantics (linearizability-style) and a final-state model')
+
 NA = [
     ('C09', 'pure function of (signature, call form, keymap options): no history, schedule, clock, fault or restart for a simulator to vary; DESIGN.md section 5'),
     ('C10', 'pure function of a pair of calls and keymap options; the only process-dependent aspect (hash randomisation) is covered under C17; DESIGN.md section 5'),
